@@ -399,7 +399,7 @@ func forcedShutdownRound(rd *renderer, dir string, seed uint64) {
 	rec := map[string]interface{}{"kind": "proc", "round": -1, "pipeline": "forced_shutdown", "tree": tree, "mark": mark, "script": rd.render(tree)}
 	id1, _, _ := a.Schedule("tree", map[string]interface{}{"mark": mark + "Q", "file": quick})
 	a.WaitDone(id1, 10*time.Second)
-	_, st, msg := a.Schedule("tree", map[string]interface{}{"mark": mark, "file": file})
+	id2, st, msg := a.Schedule("tree", map[string]interface{}{"mark": mark, "file": file})
 	if st != 202 {
 		rec["ok"], rec["what"] = false, fmt.Sprintf("schedule: %d %s", st, msg)
 		emit(rec)
@@ -422,6 +422,26 @@ func forcedShutdownRound(rd *renderer, dir string, seed uint64) {
 	ok := returned && len(soon) == 0 && report <= killTimeout+1500*time.Millisecond
 	if !ok {
 		rec["what"] = fmt.Sprintf("forced shutdown: application returned=%v after %d ms, %d processes of the running job alive 100 ms later", returned, report.Milliseconds(), len(soon))
+	}
+	if returned {
+		// the store after the return: the running job ended canceled, the earlier one completed
+		jobs, err := readStore(a.Dir)
+		stored := ""
+		for _, j := range jobs {
+			if j.ID == id2 && !j.Canceled {
+				stored = fmt.Sprintf("forced shutdown: the job that was running is stored completed=%v canceled=%v", j.Completed, j.Canceled)
+			}
+			if j.ID == id1 && (!j.Completed || j.Canceled) {
+				stored = fmt.Sprintf("forced shutdown: the job that had finished before is stored completed=%v canceled=%v", j.Completed, j.Canceled)
+			}
+		}
+		if err != nil || len(jobs) != 2 {
+			stored = fmt.Sprintf("forced shutdown: the store holds %d jobs (%v), 2 were accepted", len(jobs), err)
+		}
+		if stored != "" {
+			ok = false
+			rec["what"] = stored
+		}
 	}
 	rec["ok"] = ok
 	emit(rec)
